@@ -347,6 +347,16 @@ class Repo:
             return self.cls(qual)
         except (AnchorMissing, AnalysisError):
             pass
+        if ":" in qual and "." in qual.split(":")[1]:
+            # a member that is now a class-level value (`name = property(getter)`) rather than a def: attributed to its class
+            mod_, rest_ = qual.split(":")
+            cn_, mn_ = rest_.split(".")[:2]
+            try:
+                c_ = self.cls(f"{mod_}:{cn_}")
+                if any(mn_ in k.attrs for k in self.mro(c_)):
+                    return c_
+            except (AnchorMissing, AnalysisError):
+                pass
         if self.is_private_helper(qual):
             self.__dict__.setdefault("renamed_private", set()).add(qual)
             mod, rest = qual.split(":")
